@@ -30,6 +30,13 @@ recompute the documented statistic from the history of the filter's own innovati
 statistic, metric = the detector's documented statistic, threshold, method, sensor ids, epoch, target; one record
 exactly when a maneuver was declared.
 
+Adaptive estimation (items ``mmae``): histories in which the filter that carries the detector is replaced by a real
+``StaticMultipleModel`` / ``GeneralizedPseudoBayesian1`` (real factory, ``initialize``, ``_createModels``, ``update``,
+prune / gate, ``_resumeSequentialFiltering``) and handed back as ``converged_filter``: at every detector call before,
+inside and after adaptive estimation the decision / metric equal the reference statistic over the documented history
+(every innovation evaluated for the target, in evaluation order) and the carried detector equals a fresh detector fed
+that history - in particular at the hand-back and for the w steps after it.
+
 Unit dimension (the statistic nu^T S^-1 nu has no unit): every explorer item carries a unit u; all its innovations are
 expressed in that unit (nu -> u nu, S -> u^2 S; kind-M covariances: only the first block).  The old families run at
 u = 1; the families FC* (strongly correlated covariances: every pairwise correlation >= 0.9, and block-diagonal
@@ -41,6 +48,7 @@ from __future__ import annotations
 
 import copy
 import math
+import pickle
 from collections import deque
 from datetime import datetime
 
@@ -107,9 +115,32 @@ RULE = (
     "from the whole history of the filter's own innovation / innov_cvr.  One evaluation of 'report/*' = one field "
     "group of one record (count, metric, nis, threshold, reaches its bound, method, sensor ids, epoch + target); "
     "non-trivial for metric / nis / reaches_bound = the detector's statistic differs from the single-step NIS by more "
-    "than 1e-3 (relative), for count = a maneuver was declared, for sensor ids = more than one sensor."
+    "than 1e-3 (relative), for count = a maneuver was declared, for sensor ids = more than one sensor. "
+    "ADAPTIVE ESTIMATION (items 'mmae'; the filter that carries the detector is replaced and handed back): per "
+    "estimator {SMM, GPB1} x detector configuration (standard as memory-less control, every window 1,2,4,10, every "
+    "delta; quick: one threshold each, thorough: all) the complete lattice {2, 3 models} x {0, 2 nominal steps before "
+    "the maneuver} x {1, 2, 3 observed steps inside adaptive estimation}, closing mode (SMM: prune below 1e-10 / one "
+    "model >= 0.997 and gate; GPB1: gate), one unobserved step inside or after, a pickle round trip of the adaptive / "
+    "converged filter (job path) and the (dimension 2,3,4,8; covariance S,C) sequence rotating over the lattice: real "
+    "UKF (real predict; update reduced to its last lines on scripted innovations, as the scripted agent) detects -> "
+    "real adaptiveEstimationFactory + initialize (database query and Lambert targeting replaced) -> real _createModels "
+    "-> real SMM/GPB1 update (weights, prune, gate) on model NIS chosen to keep it open / close it -> real "
+    "_resumeSequentialFiltering -> w + 2 (standard / fading: 5) steps on converged_filter at the statistic levels "
+    "{0, 0.3, 0.5, 0.7, 0.9, 1 -+ 1e-6, 2} x the detector's own bound given the DOCUMENTED history = every innovation "
+    "evaluated for the target in evaluation order (nominal steps, one entry per model per observed step inside, "
+    "converged steps; nothing skipped or repeated when the filter object changes). One evaluation of 'mmae/*' = "
+    "decision / metric of one detector call (inside: decision of every model's call, metric of the last call and of "
+    "declared maneuvers) or one comparison of the carried detector's complete state with a fresh detector given the "
+    "documented history (after every step and at the hand-back before any further step); non-trivial = detector with "
+    "memory, call inside or after adaptive estimation."
 )
 ASSUMPTIONS = [
+    "adaptive estimation: the filters of one target share one detector (the adaptive filter hands its own detector to "
+    "every model filter and the converged filter continues the target's maneuver detection), so the documented history "
+    "of that detector is every innovation evaluated for the target in evaluation order, one entry per model filter per "
+    "observed step inside adaptive estimation; the hypothesis states / database queries of initialize() are replaced "
+    "(subject of C18), the model and converged filters are real UKFs whose observed update keeps only its last lines "
+    "on scripted innovations (posterior = prior), their predict and unobserved update are real",
     "scipy.special.gammainccinv/gammaincc (validated against each other) are the chi-square reference",
     "documented degrees of freedom: n_k (standard), sum of the last w dimensions (sliding), "
     "mean(dimensions so far)*(1+delta)/(1-delta) (fading memory, the code's comment for time-varying dimension)",
@@ -294,6 +325,28 @@ def bounds(tier, seed):
             "real_max_condition_of_innovation_correlation": REAL_COND_MAX,
             "epoch_tol_days": JD_TOL,
             "columns_distinguishable_when_rel_difference_gt": DISTINCT,
+        },
+        "adaptive_estimation": {
+            "items": [list(x[1:5]) for x in _mmae_items(tier, seed)],
+            "estimators": MMAE_ESTIMATORS,
+            "models": MMAE_MODELS,
+            "nominal_steps_before_the_maneuver": MMAE_PRE,
+            "observed_steps_inside": MMAE_K,
+            "closing_modes": {"smm": ["prune", "gate"], "gpb1": ["gate"]},
+            "prune_threshold": MMAE_PRUNE_THRESHOLD,
+            "prune_percentage": MMAE_PRUNE_PERCENTAGE,
+            "model_nis_open": MMAE_NIS_OPEN,
+            "model_nis_closing_first_and_other_models": {k: list(v) for k, v in MMAE_NIS_CLOSE.items()},
+            "shapes_rotating": [list(x) for x in MMAE_SHAPES],
+            "fractions_of_own_bound_before": list(MMAE_PRE_FRACTIONS) + [10.0],
+            "fractions_of_own_bound_after_handback_rotating": MMAE_POST_FRACTIONS,
+            "steps_after_handback": "window + 2 (sliding), 5 (standard, fading), plus one unobserved step inside or after",
+            "pickle_round_trip": "adaptive filter before its 2nd/3rd step (rotation % 3 == 1), converged filter (rotation % 3 == 2)",
+            "traces_per_item": len(MMAE_MODELS) * len(MMAE_PRE) * len(MMAE_K),
+            "documented_history": "every innovation evaluated for the target in evaluation order: nominal filter, every model "
+            "filter (list order) per observed step inside adaptive estimation, converged filter",
+            "replaced": "fetchObservationsByJDInterval, _calculateNominalStates, _generateHypothesisManeuvers, "
+            "_generateHypothesisStates (database / Lambert targeting: not this property)",
         },
         "thresholds": THRESHOLDS,
         "windows": WINDOWS,
@@ -1622,6 +1675,8 @@ class _MmaeTrace:
         del _MMAE_CALLS[:]
         if opener is None:
             self.t += MMAE_DT
+            if self.rot % 3 == 1:  # the job path pickles the target's filter at every step
+                self.af = pickle.loads(pickle.dumps(self.af))
             _real(self.af.predict, ScenarioTime(self.t))
             _real(self.af.update, self.obs)
         else:
@@ -1682,6 +1737,8 @@ class _MmaeTrace:
             self.inside_step(j == self.k)
         # hand-back: what EstimateAgent._handleMMAE installs as the target's filter
         flt = self.af.converged_filter
+        if self.rot % 3 == 2:
+            flt = pickle.loads(pickle.dumps(flt))
         self.where = "converged"
         memory = self.kind != STANDARD
         self.state_case("handback", flt.maneuver_detection, memory)
